@@ -48,19 +48,19 @@ def lag_oracle(case):
 
 
 def check(rep, tier, seed):
-    n, n_clients = (36, 4) if tier == "quick" else (1200, 6)
+    n, n_clients = (36, 4) if tier == "quick" else (5000, 6)
     cases = []
     for i in range(n):
         r = rng_for(seed, "c02/%d" % i)
         keys = r.sample(KEY_POOL[:8], r.randint(1, 3))
         cases.append(sched.gen_schedule(r, n_clients if i % 2 else 3, keys, ENGINES[i % 3]))
     # sequential histories for the header/data relation of read responses (incl. reads above the committed revision)
-    seqs = [c03.gen_case(seed + 1000, i, ENGINES[i % 3], 40) for i in range(12 if tier == "quick" else 300)]
+    seqs = [c03.gen_case(seed + 1000, i, ENGINES[i % 3], 40) for i in range(12 if tier == "quick" else 1500)]
     # all interleavings of two clients on one live key, every pair of request shapes (as in C01): the response
     # of the LOSER of a race carries the winner's kv - its header must cover it
     from . import c01
     cases += c01.exhaustive_pairs(seed, "memkv")
-    lags = [lag_case(seed, i, ENGINES[i % 3]) for i in range(9 if tier == "quick" else 150)]
+    lags = [lag_case(seed, i, ENGINES[i % 3]) for i in range(9 if tier == "quick" else 900)]
     core.run_cases(cases + seqs + lags)
     for c in lags:
         rep.count_case(c)
